@@ -369,6 +369,49 @@ def runLoop (cycle : Skel → Skel) (maxCycles : Option Nat) : Nat → Nat → S
       | none => false) || s'.junctionCount == s.junctionCount
     if stop then some s' else runLoop cycle maxCycles fuel (iter + 1) s'
 
+/-! ### controls as `_Skeletonize.__init__` sees them -/
+
+/-- an element a control refers to (`requires()` returns objects, so node / link is known) -/
+structure Ref where
+  isNode : Bool
+  name : String
+  deriving Repr, DecidableEq
+
+/-- a control or rule: what its condition and its THEN / ELSE actions refer to -/
+structure Ctl where
+  cond : List Ref
+  thenA : List Ref
+  elseA : List Ref
+  deriving Repr, DecidableEq
+
+/-- `Rule.requires()` / `Control.requires()`: rebuilt from the CURRENT condition and actions on every call -/
+def Ctl.requires (c : Ctl) : List Ref := c.cond ++ c.thenA ++ c.elseA
+
+/-- `update_condition`, `update_then_actions`, `update_else_actions`, `update_priority` on the `i`-th control -/
+inductive CtlEdit where
+  | cond (i : Nat) (refs : List Ref)
+  | thenA (i : Nat) (refs : List Ref)
+  | elseA (i : Nat) (refs : List Ref)
+  | priority (i : Nat)
+  deriving Repr
+
+def applyEdit (cs : List Ctl) : CtlEdit → List Ctl
+  | .cond i r => cs.modify i (fun c => { c with cond := r })
+  | .thenA i r => cs.modify i (fun c => { c with thenA := r })
+  | .elseA i r => cs.modify i (fun c => { c with elseA := r })
+  | .priority _ => cs
+
+/-- `junc_with_controls` / `pipe_with_controls`: `isinstance(req, Junction)` / `isinstance(req, Pipe)` over all `requires()` -/
+def ctlJunctions (nodes : List SNode) (cs : List Ctl) : List String :=
+  ((cs.flatMap Ctl.requires).filter (fun r => r.isNode && nodes.any (fun n => n.name == r.name && n.kind == .junction))).map (·.name)
+
+def ctlPipes (links : List SLink) (cs : List Ctl) : List String :=
+  ((cs.flatMap Ctl.requires).filter (fun r => !r.isNode && links.any (fun l => l.name == r.name && l.isPipe))).map (·.name)
+
+/-- the state `_Skeletonize.__init__` builds from the model, its controls AS THEY ARE NOW, and the two user lists -/
+def Skel.initFromControls (nodes : List SNode) (links : List SLink) (cs : List Ctl) (jUser pUser : List String) : Skel :=
+  Skel.init nodes links (ctlJunctions nodes cs ++ jUser) (ctlPipes links cs ++ pUser)
+
 /-! ### the traversal of `_Skeletonize.run`, with everything it takes from dict / networkx iteration order as a parameter -/
 
 /-- the orders the traversal depends on besides the network itself -/
